@@ -1,4 +1,5 @@
 import Saito.Model.Atr
+import Saito.Model.AtrScan
 /-
   `driver atr` — line protocol of the C13 model (Saito/Model/Atr.lean).
 
@@ -137,6 +138,10 @@ def step (fl : Flags) (line : String) : Flags × String :=
   | "blk" :: kvs => (fl, (doBlk fl kvs).getD "bad-op")
   | "probe" :: kvs => (fl, (doProbe fl kvs).getD "bad-op")
   | "reorg" :: kvs => (fl, (doReorg kvs).getD "bad-op")
+  -- `scan <t1,t2,…>`: the cut of one transaction's collected outputs (slip type codes) into single outputs and triples
+  | ["scan", ts] =>
+    let l := if ts == "-" then [] else (ts.splitOn ",").filterMap String.toNat?
+    (fl, "groups=" ++ String.intercalate "" ((Saito.AtrScan.scan l).map Saito.AtrScan.Group.tag))
   | _ => (fl, "bad-op")
 
 partial def loop (h out : IO.FS.Stream) (fl : Flags) : IO Unit := do
